@@ -120,6 +120,17 @@ Theorem C03_tpd_last_set_partial : forall p l hdr pay h1 d h2 p2, repr p l hdr p
 Proof. exact tpd_last_set. Qed.
 Print Assumptions C03_tpd_last_set_partial.
 
+Theorem C03_opcr_last_set : forall p l hdr pay h1 v h2, repr p l hdr pay -> Forall op_ok (h1 ++ AF.OSetOPCR v :: h2) ->
+  Forall (fun o => touches 1 o = false) h2 -> AF.HasOPCR (AF.run p h1) = Ok true ->
+  AF.OPCR (AF.run p (h1 ++ AF.OSetOPCR v :: h2)) = Ok v /\ AFfn.OPCR (AF.run p (h1 ++ AF.OSetOPCR v :: h2)) = Ok (pcr_enc v).
+Proof. exact opcr_last_set. Qed.
+Print Assumptions C03_opcr_last_set.
+Theorem C03_ext_last_set_partial : forall p l hdr pay h1 d h2 p2, repr p l hdr pay -> Forall op_ok (h1 ++ AF.OSetExt d :: h2) ->
+  Forall (fun o => touches 4 o = false) h2 -> AF.step (AF.run p h1) (AF.OSetExt d) = Ok p2 ->
+  AF.AdaptationFieldExtension (AF.run p (h1 ++ AF.OSetExt d :: h2)) = Ok (len d :: d).
+Proof. exact ext_last_set. Qed.
+Print Assumptions C03_ext_last_set_partial.
+
 (* SetPCR/SetOPCR write the ISO layout of the value (33-bit base, 6 reserved bits set, 9-bit extension) *)
 Theorem C03_pcr_layout : forall v, v < PcrMax -> Pcr.pcr6 v = pcr_enc v.
 Proof. exact pcr6_enc. Qed.
